@@ -380,7 +380,7 @@ def labels_ok(skel, external_defs=(), nlabels=2):
     return True
 
 
-SECOND_ROUTINES = ["none", "plain", "target_label", "jump_back", "alias", "coro", "for_actor"]
+SECOND_ROUTINES = ["none", "plain", "target_label", "jump_back", "alias", "coro", "for_actor", "cond_tail"]
 
 
 def programs(alpha, max_n, depth, seed=0, seconds=("none",), min_n=0, compatible_cases=False):
@@ -421,6 +421,11 @@ def build_program(inst, body, second):
     elif second == "coro":
         routines = [A.Routine("coro", None, body, name="CORO_A"),
                     A.Routine("coro", None, [A.Op("second_op", []), A.Ctrl("return")], name="CORO_B")]
+    elif second == "cond_tail":
+        # both further routines end in a label that only conditional jumps target (each needs its own appended Return)
+        routines = [A.Routine("def", 0, body),
+                    A.Routine("def", 1, [A.While(True, A.Cond("special", False, "edit"), [A.Op("second_op", [])])]),
+                    A.Routine("def", 2, [A.Op("third_a", []), A.Call("T"), A.Op("third_b", []), A.Label("T")])]
     elif second == "for_actor":
         routines = [A.Routine("for", 0, body, target_kind="actor", target=("c", "ACTOR_X")),
                     A.Routine("for", 1, [A.Ctrl("hold")], target_kind="object", target=("i", 3))]
@@ -431,3 +436,49 @@ def build_program(inst, body, second):
 
 def count(alpha, max_n, depth):
     return [len(bodies(alpha, n, False, False, depth)) for n in range(max_n + 1)]
+
+
+# ------------------------------------------------------------------ G-chains: if / elseif / else chains with leaving blocks
+CHAIN_BODIES = ["empty", "op", "two_ops", "end", "return", "jump_after", "op_jump_after"]
+
+
+def chain_programs(seed=0, compatible_cases=False, big=False):
+    """All if/elseif(/elseif)/else chains whose blocks are empty / plain / leave the routine / jump behind the chain,
+    with or-groups of 1-3 conditions, followed by a label, an operation and a terminator."""
+    inst = Instantiator(seed, compatible_cases)
+
+    def mk_body(kind):
+        if kind == "empty":
+            return []
+        if kind == "op":
+            return [A.Op(inst.op(), [])]
+        if kind == "two_ops":
+            return [A.Op(inst.op(), []), A.Op(inst.op(), [])]
+        if kind == "end":
+            return [A.Op(inst.op(), []), A.Ctrl("end")]
+        if kind == "return":
+            return [A.Ctrl("return")]
+        if kind == "jump_after":
+            return [A.Jump("AFTER")]
+        if kind == "op_jump_after":
+            return [A.Op(inst.op(), []), A.Jump("AFTER")]
+        raise ValueError(kind)
+    for nb in (2, 3):
+        neg_sets = list(itertools.product((False, True), repeat=nb))
+        if nb == 3 and not big:
+            neg_sets = [(False, False, False), (False, True, False), (True, False, True)]
+        for kinds in itertools.product(CHAIN_BODIES, repeat=nb):
+            for negs in neg_sets:
+                for else_kind in (None,) + tuple(CHAIN_BODIES if (big or nb == 2) else CHAIN_BODIES[:4]):
+                    uses_after = "jump_after" in kinds or "op_jump_after" in kinds or else_kind in ("jump_after", "op_jump_after")
+                    inst.reset()
+                    branches = []
+                    for bi, (kd, ng) in enumerate(zip(kinds, negs)):
+                        nconds = 1 + (bi + len(kinds) + (1 if ng else 0)) % 3
+                        branches.append(A.IfBranch(ng, [inst.cond() for _ in range(nconds)], mk_body(kd)))
+                    eb = None if else_kind is None else mk_body(else_kind)
+                    body = [A.Op(inst.op("before"), []), A.If(branches, eb), A.Op(inst.op("between"), [])]
+                    if uses_after:
+                        body.append(A.Label("AFTER"))
+                    body += [A.Op(inst.op("after"), []), A.Ctrl("hold")]
+                    yield ("chain", kinds, negs, else_kind), A.Program([A.Routine("def", 0, body)])
